@@ -10,6 +10,7 @@ import (
 	"fmt"
 	"hash"
 	"io"
+	"runtime"
 	"runtime/metrics"
 	"testing"
 
@@ -265,6 +266,85 @@ func checkC20(c C20Case, st *stats.Collector) error {
 		st.Sample(c)
 	}
 	return nil
+}
+
+// ---- one long-lived Reader serving many reads: what stays allocated may not grow with the number of reads
+type C20Reuse struct {
+	Comp    string
+	NChunks int
+	Payload int // bytes per message (8 messages per chunk)
+	Reads   int
+	Seed    uint64
+}
+
+func genC20Reuse(t *rapid.T) C20Reuse {
+	return C20Reuse{Comp: rapid.SampledFrom([]string{"", "zstd", "lz4"}).Draw(t, "comp"), NChunks: rapid.IntRange(12, 40).Draw(t, "n-chunks"),
+		Payload: rapid.SampledFrom([]int{2000, 16000, 60000}).Draw(t, "payload"), Reads: rapid.IntRange(24, 60).Draw(t, "reads"), Seed: rapid.Uint64().Draw(t, "seed")}
+}
+
+func liveHeap() uint64 {
+	runtime.GC()
+	runtime.GC()
+	var ms runtime.MemStats
+	runtime.ReadMemStats(&ms)
+	return ms.HeapAlloc
+}
+
+func checkC20Reuse(c C20Reuse, st *stats.Collector) error {
+	cc := C20Case{NChunks: c.NChunks, Depth: 1, PerChunk: 8, Comp: []string{c.Comp}, Payload: c.Payload, Seed: c.Seed | 1}
+	file, w, err := buildC20(&cc)
+	if err != nil {
+		return pk.Failf("harness", "cannot build the file: %v", err)
+	}
+	chunkBytes := uint64(8 * (c.Payload + 40))
+	rd, err := mcap.NewReader(bytesReader(file))
+	if err != nil {
+		return pk.Failf("open", "NewReader: %v", err)
+	}
+	defer rd.Close()
+	total := len(w.Messages())
+	var base uint64
+	for i := 0; i < c.Reads; i++ {
+		order := []mcap.ReadOrder{mcap.FileOrder, mcap.LogTimeOrder, mcap.ReverseLogTimeOrder}[(i+int(c.Seed%3))%3]
+		opts := []mcap.ReadOpt{mcap.InOrder(order)}
+		if i%4 == 1 {
+			opts = append(opts, mcap.AfterNanos(uint64(i%c.NChunks)*10))
+		}
+		it, err := rd.Messages(opts...)
+		if err != nil {
+			return pk.Failf("session-open", "read #%d on one Reader: %v", i, err)
+		}
+		limit := 3 + i%7 // a short look, then the iterator is dropped
+		if i%5 == 0 {
+			limit = total + 1 // or a complete read
+		}
+		msg := &mcap.Message{}
+		for k := 0; k < limit; k++ {
+			if _, _, _, err := it.NextInto(msg); err != nil {
+				break
+			}
+		}
+		it = nil
+		if i == 7 {
+			base = liveHeap()
+		}
+	}
+	end := liveHeap()
+	// after the first few reads the Reader's own state (Info, one lexer) is complete; nothing a dropped iterator
+	// held may stay reachable through the Reader. Allow four chunks and 1 MiB of noise.
+	allowance := 4*chunkBytes + 1<<20
+	if end > base+allowance {
+		return pk.Failf("reader-retains-iterators", "one Reader, %d reads (%q chunks of about %d bytes): live heap grew by %d bytes between read #8 and the last read; allowance %d", c.Reads, c.Comp, chunkBytes, end-base, allowance)
+	}
+	st.Case(wl.Hash(c), true, c.Reads, "reader-reuse", "compression="+c.Comp)
+	if st.WantSample() {
+		st.Sample(map[string]any{"case": c, "live_heap_growth": int64(end) - int64(base), "allowance": allowance})
+	}
+	return nil
+}
+
+func TestC20ReaderReuse(t *testing.T) {
+	pk.Run(t, "C20r", genC20Reuse, checkC20Reuse)
 }
 
 func TestC20(t *testing.T) {
